@@ -376,3 +376,42 @@ for _k in (1, 2, 4):
                 functions=[BASE + '.send_request', BASE + '._queue_request_frame', BASE + '.handle_lease', BASE + '._reset_internals'],
                 assumptions=['BOUNDED stand-in: up to 4 requests before the first LEASE, retention queue sizes 0 (unbounded), 1, 3; '
                              'symbolic grant, time-to-live and clock; driven through the public operations only'])(_lease_history(_k, _qs))
+
+
+@harness('c14.single_lease_publisher', ['C14'], functions=[LEASE + 'SingleLeasePublisher.__init__', LEASE + 'SingleLeasePublisher.subscribe',
+                                                           LEASE + 'SingleLeasePublisher._send_lease', LEASE + 'DefinedLease.__init__'],
+         assumptions=['virtual clock: asyncio.sleep(d) advances the ghost clock by exactly d'])
+def single_lease_publisher(E):
+    """The library's own lease publisher publishes exactly one lease: the configured count and time-to-live, after the
+    configured wait, to the subscriber it was given (which announces it: c14.send_lease)."""
+    E.import_module('asyncio')
+    E.import_module('datetime')
+    t0 = E.fresh_int('t0')
+    E.path.ghost['now'] = I(t0)
+    mx = E.fresh_int('max', 0, 0x7FFFFFFF)
+    ttl = E.fresh_int('ttl_us', 0)
+    wait = E.fresh_int('wait_us', 0)
+    pub = E.call(E.lookup(LEASE + 'SingleLeasePublisher'), [mx, td(E, ttl), td(E, wait)])
+    tasks = []
+    E.create_task_hook = lambda E_, t, coro: tasks.append((t, coro))
+    sub = SOpaque('subscriber', 'lease-subscriber')
+    log = OpaqueLog(E)
+    E.call(E.getattr(pub, 'subscribe'), [sub])
+    E.prove('lease_publisher:nothing_published_synchronously', len(tasks) == 1 and not log.of(sub))
+    slept = []
+
+    def on_suspend(E_, what):
+        if what[0] == 'sleep':
+            slept.append(what[1])
+            aio.advance_clock(E_, z3.ToInt(R(what[1]) * 1000000) if not isinstance(what[1], int) else what[1] * 1000000)
+        return None
+    E.suspend_hook = on_suspend
+    E.await_value(tasks[0][1])
+    E.cover('published')
+    calls = log.of(sub)
+    E.prove('lease_publisher:exactly_one_lease_published', [c[1] for c in calls] == ['on_next'])
+    lease = calls[0][2][0]
+    E.prove('lease_publisher:it_is_the_configured_grant_and_ttl', isinstance(lease, SObj) and lease.cls.name == 'DefinedLease'
+            and z3.And(I(lease.attrs['maximum_request_count']) == I(mx), I(lease.attrs['maximum_lease_time'].attrs['us']) == I(ttl)))
+    E.prove('lease_publisher:after_the_configured_wait_and_valid_from_then',
+            z3.And(I(aio.now(E)) == I(t0) + I(wait), I(lease.attrs['_lease_created_at'].attrs['t']) == I(t0) + I(wait)))
